@@ -1178,3 +1178,70 @@ def peval(expr, env=None):
     out = PE().visit(sym.clone(expr))
     # a second round lets `tuple([...])` of a freshly unrolled comprehension fold
     return PE().visit(out)
+
+
+def path_stores(f, var, limit=128):
+    """Enumerate the paths through the if-structure of f and collect, per path, the item / slice stores into the local `var`
+    (`var[<sel>] = <value>`) with the path's earlier bindings substituted into selector and value.
+    -> [(conds, env, [(selector expr, value expr, statement)])].  Same conventions as path_values (loops / try / with are not
+    entered; raising paths are dropped; tuple assignments of displays are bound component-wise)."""
+    out = []
+
+    def lits(test, pol, env):
+        t = _fold(substitute(test, env))
+        d = literal_dnf(t, pol)
+        if len(d) == 1:
+            return [(u(a), pl) for a, pl in d[0]]
+        return [('(%s)' % u(t), pol)]
+
+    def run(stmts, env, conds, stores):
+        if len(out) > limit:
+            raise Inconclusive('too many paths through %s' % f.qualname)
+        if not stmts:
+            out.append((conds, env, stores))
+            return
+        s, rest = stmts[0], stmts[1:]
+        if isinstance(s, ast.Return):
+            out.append((conds, env, stores))
+            return
+        if isinstance(s, ast.Raise):
+            return
+        if isinstance(s, ast.If):
+            t = substitute(s.test, env)
+            c = const_value(t)
+            if c is not NotImplemented and isinstance(c, (bool, int, type(None))):
+                return run((s.body if c else s.orelse) + rest, env, conds, stores)
+            run(s.body + rest, dict(env), conds + lits(s.test, True, env), list(stores))
+            run(s.orelse + rest, dict(env), conds + lits(s.test, False, env), list(stores))
+            return
+        if isinstance(s, ast.Assign) and len(s.targets) == 1:
+            t = s.targets[0]
+            if isinstance(t, ast.Name):
+                env = dict(env)
+                env[t.id] = _fold(substitute(s.value, env))
+                return run(rest, env, conds, stores)
+            if isinstance(t, (ast.Tuple, ast.List)) and isinstance(s.value, (ast.Tuple, ast.List)) and len(t.elts) == len(s.value.elts) \
+                    and all(isinstance(x, ast.Name) for x in t.elts):
+                vals = [_fold(substitute(v, env)) for v in s.value.elts]
+                env = dict(env)
+                for x, v in zip(t.elts, vals):
+                    env[x.id] = v
+                return run(rest, env, conds, stores)
+            if isinstance(t, ast.Subscript) and isinstance(t.value, ast.Name) and t.value.id == var:
+                e2 = {k: v for k, v in env.items() if k != var}
+                stores = stores + [(_fold(substitute(t.slice, e2)), _fold(substitute(s.value, e2)), s)]
+                return run(rest, env, conds, stores)
+        if isinstance(s, ast.AugAssign) and isinstance(s.target, ast.Name):
+            cur = env.get(s.target.id, ast.Name(id=s.target.id, ctx=ast.Load()))
+            env = dict(env)
+            env[s.target.id] = _fold(ast.BinOp(left=cur, op=s.op, right=substitute(s.value, env)))
+            return run(rest, env, conds, stores)
+        st = _stored_in([s])
+        if st:
+            env = dict(env)
+            for n_ in st:
+                if n_ != var:
+                    env[n_] = mk('__top__', ast.Constant(value=n_))
+        return run(rest, env, conds, stores)
+    run(list(f.node.body), {}, [], [])
+    return out
